@@ -734,7 +734,7 @@ def drv_random(ctx: Ctx, sub: SubCheck):
     M = make_machine("HSTRPHandlerMachine", Runner, _strategies(), initial_ops=_initial_ops())
 
     def work(shard, t: Tally):
-        ctx.state_machine(sub.name, M, max_examples=ctx.pick(40, 150), step_count=ctx.pick(60, 200), tally=t, shard=shard)
+        ctx.state_machine(sub.name, M, max_examples=ctx.pick(40, 100), step_count=ctx.pick(60, 200), tally=t, shard=shard)
 
     ctx.shards(work, list(range(16)))
 
